@@ -582,8 +582,9 @@ class Machine:
     def op_iter_cow(self, a, items):
         """iter_cow A items: for j, item in order: if j < len the call returns Some; for a
         value item v: vals[j] := v, pend := true.  Result ok:<min(len(items), len)>.
-        Items: `_` = ignore the result, otherwise a value (`-` = no items)."""
-        reg = self.source(a)
+        Items: `_` = ignore the result, otherwise a value (`-` = no items). List only (the crate
+        has no Vector::iter_cow)."""
+        reg = self.source(a, "L")
         parsed = []
         if items != "-":
             for tok in items.split(","):
